@@ -26,8 +26,8 @@ class Graph:
                 self.succ.setdefault(a, []).append(c)
             self.succ.setdefault(chain[-1], [])
             for s in b.get('succs') or []:
-                if s is None:
-                    continue
+                if s is None or b.get('noreturn'):
+                    continue        # a block ending in a noreturn call (failed assert) never continues
                 sel = self.blocks[s].get('elems') or []
                 self.succ[chain[-1]].append((s, 0) if sel else (s, None))
             self.nodes.extend(chain)
@@ -91,11 +91,12 @@ class Graph:
         return True
 
     # ---- counting ----------------------------------------------------------------------------------------------------------
-    def count(self, ev, start=None, ends=None):
-        """(min, max) number of event nodes on a path start -> any of ends (default: exit). max = INF when an event lies on a cycle."""
+    def count(self, ev, start=None, ends=None, normal=False):
+        """(min, max) number of event nodes on a path start -> any of ends (default: exit). max = INF when an event lies on a cycle.
+        normal=True ignores the paths that end in a throw expression."""
         start = start or self.start
         ends = set(ends) if ends else {self.end}
-        nodes = self.reach(start)
+        nodes = self.reach(start, avoid=self.throw_nodes() if normal else frozenset())
         # only nodes that can reach an end
         rev = {}
         for n in nodes:
@@ -203,3 +204,63 @@ def returns(g, value=None):
                 if c and c[0].get('k') == 'CXXBoolLiteralExpr' and bool(c[0].get('val')) == value:
                     out.add(n)
     return out
+
+
+class Product:
+    """Reachability over CFG x a small valuation (conditional constant propagation of local flags, correlated branch conditions,
+    'seen' markers).  effect(tree) -> {key: value} updates applied when a node is passed; branch(cond tree) -> key or None names a
+    tracked condition: its first evaluation on a path fixes its value, later tests of the same key follow the same edge;
+    reset(tree) -> iterable of keys forgotten when the node is passed."""
+
+    def __init__(self, g, effect, branch, reset=None, init=None, normal=True):
+        self.g = g
+        self.seen = set()
+        stop = g.throw_nodes() if normal else frozenset()
+        work = [(g.start, frozenset((init or {}).items()))]
+        f = g.fn
+        while work:
+            node, st = work.pop()
+            if (node, st) in self.seen:
+                continue
+            self.seen.add((node, st))
+            if node in stop:
+                continue
+            d = dict(st)
+            t = g.tree(node)
+            if t is not None:
+                if reset is not None:
+                    for k in reset(t) or ():
+                        d.pop(k, None)
+                e = effect(t)
+                if e:
+                    d.update(e)
+            succs = list(g.succ.get(node, ()))
+            if node[1] is None:
+                bt = g.blocks[node[0]].get('term')
+                tn = f.node(bt) if bt is not None else None
+                raw = g.blocks[node[0]].get('succs') or []
+                if tn is not None and tn.get('k') == 'IfStmt' and len(raw) == 2:
+                    key = branch(tn['slots'].get('cond'))
+                    if key is not None:
+                        neg = False
+                        if isinstance(key, tuple) and key[0] == 'not':
+                            key, neg = key[1], True
+                        if key in d and d[key] in (True, False):
+                            v = d[key] != neg
+                            keep = raw[0] if v else raw[1]
+                            for s in succs:
+                                if s[0] == keep:
+                                    work.append((s, frozenset(d.items())))
+                            continue
+                        for s in succs:
+                            d2 = dict(d)
+                            d2[key] = (s[0] == raw[0]) != neg
+                            work.append((s, frozenset(d2.items())))
+                        continue
+            st2 = frozenset(d.items())
+            for s in succs:
+                work.append((s, st2))
+
+    def states_at(self, nodes):
+        nodes = set(nodes)
+        return [(n, dict(st)) for (n, st) in self.seen if n in nodes]
